@@ -268,6 +268,9 @@ def check(prog, run):
                                     tr.append(astq.dump(x.upper))
             if tr:
                 ob("R-order-slot", "one truncation index throughout the order's computation", len(set(tr)) == 1, f"{len(tr)} truncations, {len(set(tr))} distinct index expression(s)", str(len(set(tr))), acall)
+            # the `ordmax` of that loop is the caller's: a re-binding on the way (validation helpers) keeps the value or lowers it to no less than
+            # what the matrices support - min(rows of the shifted observability matrix, columns of H)
+            order_bound(prog, fi, ob)
             # loop over orders: the truncation index is the loop variable of a range(0, ordmax+1, step)
             for nm_ in (An, Cn):
                 it_ = apps[nm_][0].iter
@@ -288,6 +291,94 @@ def check(prog, run):
     C11.extraction(prog, run, first_order=False, with_handover=False)
     mapform.map_obligations(prog, run, "R-map", "functions.ssi.ac2mp", {"calc_unc": False}, "calc_unc=False", (0, 1, 3))
     mapform.map_obligations(prog, run, "R-map", "functions.ssi.ac2mp", {"calc_unc": True}, "calc_unc=True", (0, 1, 3))
+
+
+def order_bound(prog, fi, ob):
+    """re-bindings of the parameter `ordmax` inside the realisation routine: identity (int(ordmax), the same name), a default for None, or
+    a clamp; a clamp lower than min(H.shape[0] - H.shape[0]//(br+1), H.shape[1]) drops orders the routine could realise (the property
+    asks for order 2m whenever the matrix supports it)"""
+    pos = astq.params_of(fi.node)[0]
+    if "ordmax" not in pos or len(pos) < 2:
+        return
+    H, br = pos[0], pos[1]
+    pm = astq.parent_map(fi.node)
+    rebinds = [n for n in ast.walk(fi.node) if isinstance(n, ast.Assign) and any(isinstance(t, ast.Name) and t.id == "ordmax" for t in n.targets)]
+
+    def none_guarded(n):
+        g = astq.enclosing(pm, n, (ast.If,))
+        return g is not None and n in g.body and astq.src(g.test).replace(" ", "") in ("ordmaxisNone", "Noneisordmax")
+
+    def bounds_of(g, e, amap, depth=0):
+        """the alternatives an expression of helper g may evaluate to: 'id' (the order handed in), frozenset of P (min over them), None"""
+        e = astq.strip_coercion(e)
+        if isinstance(e, ast.Name):
+            if amap.get(e.id) == "ordmax":
+                return ["id"]
+            ds = [n.value for n in ast.walk(g.node) if isinstance(n, ast.Assign) and len(n.targets) == 1 and isinstance(n.targets[0], ast.Name) and n.targets[0].id == e.id]
+            if len(ds) == 1:
+                return bounds_of(g, ds[0], amap, depth)
+            return [None]
+        if isinstance(e, ast.Call) and astq.src(e.func) in ("min", "np.minimum", "numpy.minimum", "np.min") and len(e.args) >= 2:
+            se_ = symidx.SymEval(prog, g)
+            terms = []
+            for a_ in e.args:
+                v_ = se_.ev(astq.expr_at(g, e, a_) if isinstance(a_, ast.Name) else a_)
+                if v_ is None:
+                    return [None]
+                # in the caller's names
+                txt = repr(v_)
+                terms.append(v_)
+            ren = {p_: a_ for p_, a_ in amap.items() if a_ in (H, br)}
+            return [("min", tuple(terms), tuple(sorted(ren.items())))]
+        if isinstance(e, ast.Call) and depth < 3:
+            try:
+                r = prog.resolve_call(g, e)
+            except Exception:
+                r = None
+            if isinstance(getattr(r, "node", None), ast.FunctionDef) and r.node is not g.node:
+                m_, errs = astq.bind_args(r.node, e)
+                sub = {}
+                for p_, a_ in m_.items():
+                    if isinstance(a_, ast.Name):
+                        sub[p_] = amap.get(a_.id, a_.id if g is fi else None)
+                out = []
+                for ret in [x for x in ast.walk(r.node) if isinstance(x, ast.Return) and x.value is not None]:
+                    out.extend(bounds_of(r, ret.value, sub, depth + 1))
+                return out or [None]
+        return [None]
+
+    def canon(term, ren):
+        t = repr(term).replace(" ", "")
+        for p_, a_ in ren:
+            t = re.sub(r"\b" + re.escape(p_) + r"\b", a_, t)
+        return t
+    se0 = symidx.SymEval(prog, fi)
+    rows_ok = se0.ev(ast.parse(f"{H}.shape[0] - {H}.shape[0] // ({br} + 1)", mode="eval").body)
+    cols_ok = se0.ev(ast.parse(f"{H}.shape[1]", mode="eval").body)
+    want = {repr(rows_ok).replace(" ", ""), repr(cols_ok).replace(" ", "")}
+    for n in rebinds:
+        if none_guarded(n):
+            continue                # a default for "not given": the orders asked for are not touched
+        alts = bounds_of(fi, n.value, {"ordmax": "ordmax", H: H, br: br})
+        verdict, why = True, []
+        for a_ in alts:
+            if a_ == "id":
+                continue
+            if a_ is None:
+                verdict = None if verdict is True else verdict
+                why.append("an alternative that was not read")
+                continue
+            got = {canon(t_, a_[2]) for t_ in a_[1]}
+            if got == want:
+                why.append("lowered at most to min(rows of the shifted observability matrix, columns of H)")
+            else:
+                # a term that is one of the admissible bounds minus something positive is a lower bound than the matrices impose
+                smaller = [g_ for g_ in got - want if any(g_.startswith(w_) and g_[len(w_):len(w_) + 1] == "-" for w_ in want) or any(w_ in g_ and "-" in g_.replace(w_, "", 1) for w_ in want)]
+                verdict = False if smaller else (None if verdict is True else verdict)
+                why.append(f"lowered to min({', '.join(sorted(got))}), required no less than min({', '.join(sorted(want))})" +
+                           (": orders the Hankel matrix supports are dropped (with a reference subset the column extent binds)" if smaller else ""))
+        ob("R-order-slot", "the orders asked for are the orders realised (ordmax kept, or lowered only to what H supports)", verdict,
+           f"`{astq.src(n, 60)}`: " + ("; ".join(why) if why else "the value handed in"), astq.src(n, 50), n)
 
 
 def poles_slot(prog, run):
